@@ -77,7 +77,8 @@ pub fn battery<T: Subj>(v: &T, panel: &[AnyBv], heavy: bool) -> Obs {
     put(&mut out, "trailing_zeros", || v.trailing_zeros());
     put(&mut out, "trailing_ones", || v.trailing_ones());
     put(&mut out, "significant_bits", || v.significant_bits());
-    if n <= 140 || heavy {
+    // decimal formatting is quadratic in the length (repeated division by ten): bounded to 700 bits
+    if n <= 140 || (heavy && n <= 700) {
         put(&mut out, "fmt.display", || format!("{}", v));
         put(&mut out, "fmt.display.pad", || format!("{:>12}|{:+}|{:<7}|", v, v, v));
     }
